@@ -210,6 +210,10 @@ def run_shard(spec):
                                  {"spec": "python", "id": "g1", "execmodel": "main_thread_only", "activity": "sigint_ignored"},
                                  {"spec": "popen", "id": "g2", "execmodel": "thread", "activity": "idle"}],
                     "action": "terminate", "timeout": 0.5, "has_via": False, "pre_exit": ["g0", "g1"], "pre_exit_replace": ["g0", "g1"]}
+    if spec["shard"] == 3:
+        # many members that do not come down by themselves: the time terminate() takes does not add up member by member
+        cases.append({"gateways": [{"spec": "popen", "id": f"g{i}", "execmodel": "thread", "activity": "stopped"} for i in range(8)],
+                      "action": "terminate", "timeout": 1.0, "has_via": False, "pre_exit": [], "tight_bound": 5.5})
     if spec["shard"] == 2:
         # a gateway that another thread finishes making while terminate() is busy with a stuck member
         cases.append({"gateways": [{"spec": "popen", "id": "g0", "execmodel": "thread", "activity": "stopped"},
@@ -259,6 +263,8 @@ def run_shard(spec):
         if len(res.samples) < 4:
             res.sample({"case": key, "terminate_s": td["seconds"], "bound_s": bound, "local_children": len(r.get("local", []))})
         states = ",".join(sorted({g["activity"] for g in c["gateways"]}))
+        if c.get("tight_bound") and td["seconds"] > c["tight_bound"]:
+            res.violation("terminate-time-grows-with-the-number-of-stuck-members", f"{key}: {len(c['gateways'])} stuck members, terminate({c['timeout']}) took {td['seconds']}s")
         if td["seconds"] > bound:
             res.violation(f"terminate-too-slow:{'via' if c['has_via'] else 'direct'}", f"{key}: {td['seconds']}s > bound {bound}s")
         lm = next((e for e in r["events"] if e.get("event") == "late_makegateway"), None)
